@@ -5,7 +5,11 @@ Require Import VT.Tac VT.ListN VT.Utf8 VT.Width VT.Attrs VT.Cell VT.Row VT.Grid 
 Require Import VT.RowInv VT.GridInv VT.TextInv VT.ScreenInv VT.ParseSer VT.CellWf VT.WfInv VT.WrapInv VT.WrapInvScreen VT.SgrSpec VT.EmitSafe VT.ObsSpec.
 Require Import VT.AttrsInv VT.EmitTokens VT.CellInv VT.Recv VT.RowPaint VT.Redraw VT.Cursor VT.C01Main VT.C15Main VT.CapInv VT.Idem VT.LastRow VT.C01Examples VT.Bytes.
 Require Import VT.DiffRound VT.DiffPaint VT.DiffGrid VT.DiffMain VT.DiffRoundU.
-Require Import VT.Props.C02 VT.Props.C02sem.
+Require Import VT.Tac VT.ListN VT.Utf8 VT.Width VT.Attrs VT.Cell VT.Row VT.Grid VT.Screen VT.Vte VT.Perform VT.Parser VT.Term VT.Emit.
+Require Import VT.RowInv VT.GridInv VT.TextInv VT.ScreenInv VT.ParseSer VT.CellWf VT.WfGrid VT.WfInv VT.WrapInv VT.WrapInvScreen VT.SgrSpec VT.EmitSafe VT.ObsSpec.
+Require Import VT.AttrsInv VT.EmitTokens VT.CellInv VT.Recv VT.RowPaint VT.Redraw VT.Cursor VT.C01Main VT.C15Main VT.CapInv VT.Idem VT.LastRow VT.C01Examples VT.Bytes.
+Require Import VT.DiffRound VT.DiffPaint VT.DiffGrid VT.DiffMain VT.DiffRoundU VT.DiffWrap VT.DiffK10 VT.DiffRoundK.
+Require Import VT.Props.C02 VT.Props.C02sem VT.Props.C02k10.
 Open Scope N_scope.
 Check C02_statement_def : forall Pr Sc,
   diff_round_ok Pr Sc <->
@@ -208,3 +212,105 @@ Check C02sem_example_W : exists Pr Sc,
   grows (cur Pr) = grows (cur Sc) /\ gcols (cur Pr) = gcols (cur Sc) /\
   diff_round_ok Pr Sc.
 Print Assumptions C02sem_example_W.
+Check C02k10_cellat_def : forall r c, cellat r c = match get (cells r) c with Some x => x | None => cell_new end.
+Print Assumptions C02k10_cellat_def.
+Check C02k10_at_def : forall cols p s p1 s1, k10_at cols p s p1 s1 =
+  wrapped p && wrapped s && cwide (cellat p (cols - 2)) && negb (has_contents (cellat s (cols - 2)))
+  && cell_eqb (cellat p1 0) (cellat s1 0).
+Print Assumptions C02k10_at_def.
+Check C02k10_rows_def : forall cols pv sv, k10_rows cols pv sv = true <->
+  exists i p s p1 s1, get pv i = Some p /\ get sv i = Some s /\ get pv (i + 1) = Some p1 /\ get sv (i + 1) = Some s1 /\
+                      k10_at cols p s p1 s1 = true.
+Print Assumptions C02k10_rows_def.
+Check C02k10_def : forall P S, k10 P S =
+  (2 <=? gcols (cur P)) && k10_rows (gcols (cur P)) (live (cur P)) (live (cur S)).
+Print Assumptions C02k10_def.
+Check C02sem_K : forall P S, reachable P -> reachable S -> sb_off (cur P) = 0 -> sb_off (cur S) = 0 ->
+  grows (cur P) = grows (cur S) -> gcols (cur P) = gcols (cur S) ->
+  k10 P S = false -> diff_round_ok P S.
+Print Assumptions C02sem_K.
+Check C02sem_K_strong : forall P S, reachable P -> reachable S -> sb_off (cur P) = 0 -> sb_off (cur S) = 0 ->
+  grows (cur P) = grows (cur S) -> gcols (cur P) = gcols (cur S) ->
+  k10 P S = false ->
+  exists r, diff_round P S = Ok r /\ obs (scr r) = obs S /\ log r = [] /\ ground (vt r) /\ canvas (scr r).
+Print Assumptions C02sem_K_strong.
+Check C02k10_W_inside : forall P S, reachable P -> in_W P S -> k10 P S = false.
+Print Assumptions C02k10_W_inside.
+Check C02k10_U_inside : forall P S, reachable P -> in_U P -> in_U S -> k10 P S = false.
+Print Assumptions C02k10_U_inside.
+Check C02k10_d10 :
+  (do Pr <- after 2 2 d10_P; do Sc <- after 2 2 d10_S; Ok (k10 Pr Sc)) = Ok true.
+Print Assumptions C02k10_d10.
+Check C02k10_chain_def : forall rows cols prev s rest,
+  chain_K rows cols prev (s :: rest) <->
+  (reachable s /\ sb_off (cur s) = 0 /\ grows (cur s) = rows /\ gcols (cur s) = cols /\
+   k10 prev s = false /\ chain_K rows cols s rest).
+Print Assumptions C02k10_chain_def.
+Check C02sem_K_chain : forall rows cols S0 snaps,
+  reachable S0 -> sb_off (cur S0) = 0 -> grows (cur S0) = rows -> gcols (cur S0) = cols ->
+  chain_K rows cols S0 snaps ->
+  exists r r', reproduce S0 = Ok r /\ diff_chain r S0 snaps = Ok r' /\
+               obs (scr r') = obs (last_snap S0 snaps) /\ log r' = [] /\ ground (vt r').
+Print Assumptions C02sem_K_chain.
+Check C02sem_K_chain_step : forall rows cols snaps prev r,
+  reachable prev -> sb_off (cur prev) = 0 -> grows (cur prev) = rows -> gcols (cur prev) = cols ->
+  chain_K rows cols prev snaps ->
+  ground (vt r) -> shows prev (scr r) (live (cur prev)) -> same_modes prev (scr r) ->
+  exists r', diff_chain r prev snaps = Ok r' /\ log r' = log r /\ ground (vt r') /\
+             shows (last_snap prev snaps) (scr r') (live (cur (last_snap prev snaps))) /\
+             same_modes (last_snap prev snaps) (scr r') /\
+             obs (scr r') = obs (last_snap prev snaps).
+Print Assumptions C02sem_K_chain_step.
+Check C02k10_free_def : forall cols pvr vr, K10free cols pvr vr <->
+  forall i p s p1 s1, get pvr i = Some p -> get vr i = Some s -> get pvr (i + 1) = Some p1 -> get vr (i + 1) = Some s1 ->
+    wrapped p = true -> wrapped s = true -> 2 <= cols -> fw (cells p) (cols - 2) = true ->
+    (forall x, get (cells s) (cols - 2) = Some x -> has_contents x = false) ->
+    get (cells s1) 0 <> get (cells p1) 0.
+Print Assumptions C02k10_free_def.
+Check C02sem_K_state_diff : forall S P R vr pvr ts,
+  source_ok S vr -> source_ok P pvr -> K10free (gcols (cur S)) pvr vr ->
+  (forall src, get vr (grows (cur S) - 1) = Some src -> wrapped src = false) ->
+  grows (cur S) = grows (cur P) -> gcols (cur S) = gcols (cur P) ->
+  shows P R pvr -> same_modes P R -> state_diff_t S P = Ok ts ->
+  exists R', plays R ts R' /\ shows S R' vr /\ same_modes S R'.
+Print Assumptions C02sem_K_state_diff.
+Check C02sem_K_grid_diff : forall R x px vr pvr pa,
+  canvas R -> vrows_ok (gcols (g R)) vr -> vrows_ok (gcols (g R)) pvr ->
+  K10free (gcols (g R)) pvr vr ->
+  (forall src, get vr (grows (g R) - 1) = Some src -> wrapped src = false) ->
+  visible_rows x = Ok vr -> visible_rows px = Ok pvr ->
+  len vr = grows (g R) -> len pvr = grows (g R) -> gcols x = gcols (g R) ->
+  prow x < grows (g R) -> pcol x <= gcols (g R) ->
+  cv R pvr (prow px) (pcol px) -> pen_ok pa ->
+  exists ts a' R2,
+    grid_contents_diff x px pa = Ok (ts, a') /\
+    plays (rcv R pvr (prow px) (pcol px) pa) ts (rcv R2 vr (prow x) (pcol x) a') /\
+    cv R2 vr (prow x) (pcol x) /\ same_base R R2 /\ pen_ok a'.
+Print Assumptions C02sem_K_grid_diff.
+Check C02sem_K_row_diff : forall R i src prev w pw l0 rprev r0 c0 a0,
+  i < grows (g R) -> srow_ok (gcols (g R)) src -> srow_ok (gcols (g R)) prev ->
+  row_wrapinv src -> row_wrapinv prev -> cv R l0 r0 c0 -> pen_ok a0 -> get l0 i = Some prev ->
+  (w = true ->
+     1 <= i /\ get l0 (i - 1) = Some rprev /\
+     (exists lc, get (cells rprev) (gcols (g R) - 1) = Some lc /\ has_contents lc || ccont lc = true) /\
+     (wrapped rprev = true \/ (r0 + 1 = i /\ c0 = gcols (g R) /\ (pw = true -> get (cells src) 0 <> get (cells prev) 0)))) ->
+  exists ts r1 c1 a1 ri,
+    row_diff src prev 0 (gcols (g R)) i w pw (r0, c0) a0 = Ok (ts, (r1, c1), a1) /\
+    plays (rcv R l0 r0 c0 a0) ts (rcv R (set_at (wLfin i w l0 rprev) i ri) r1 c1 a1) /\
+    cv R (set_at (wLfin i w l0 rprev) i ri) r1 c1 /\ pen_ok a1 /\ cells ri = cells src /\
+    (wrapped src = false -> wrapped ri = false) /\
+    (wrapped src = true -> wrapped ri = true \/
+       (wrapped ri = false /\ r1 = i /\ c1 = gcols (g R) /\ (wrapped prev = true -> Wcond R src prev))).
+Print Assumptions C02sem_K_row_diff.
+Check C02k10_wLfin_def : forall i w l0 rprev,
+  wLfin i w l0 rprev = if w then set_at l0 (i - 1) (row_wrap true rprev) else l0.
+Print Assumptions C02k10_wLfin_def.
+Check C02k10_Wcond_def : forall R src prev, Wcond R src prev <->
+  (2 <= gcols (g R) /\ fw (cells prev) (gcols (g R) - 2) = true /\
+   forall x, get (cells src) (gcols (g R) - 2) = Some x -> has_contents x = false).
+Print Assumptions C02k10_Wcond_def.
+Check C02sem_K_example : exists A B C,
+  after 3 4 exK_A = Ok A /\ after 3 4 exK_B = Ok B /\ after 3 4 exK_C = Ok C /\
+  ~ in_W A B /\ ~ in_W C A /\ ~ in_W A C /\
+  diff_round_ok A B /\ diff_round_ok C A /\ diff_round_ok A C.
+Print Assumptions C02sem_K_example.
